@@ -23,11 +23,17 @@ structure CkSlot where
   ck : Checker
   prog : String := ""
 
+structure BlSlot where
+  bl : Builder
+  prog : String := ""
+
 structure St where
   now : Int := 1700000000
   prov : Provider := .openssl
   keys : Std.HashMap String KeyItem := {}       -- "set:idx" ↦ item
   cks : Std.HashMap Nat CkSlot := {}
+  bls : Std.HashMap Nat BlSlot := {}
+  lastTok : Option Bytes := none
   orc : Oracles := {}
 
 def provName : Provider → String | .openssl => "openssl" | .gnutls => "gnutls"
@@ -37,11 +43,15 @@ def hmacKey (a : Alg) (key msg : Bytes) : String := s!"{a.ord}:{hex key}:{hex ms
 def pkvKey (p : Provider) (kid : Nat) (a : Alg) (msg sig : Bytes) : String :=
   s!"{provName p}:{kid}:{a.ord}:{hex msg}:{hex sig}"
 
+/-- what the model's `pkSign` oracle returns: the harness replaces the real token's signature by
+this placeholder after an independent verifier has accepted it (ECDSA/PSS are randomised) -/
+def sigPlaceholder : Bytes := [0x53, 0x49, 0x47, 0x2d, 0x4f, 0x4b]
+
 def mkEnv (st : St) : Env :=
   { jc := { load := fun b => (st.orc.load.get? (hex b)).getD none, dump := fun j => (st.orc.dump.get? (enc j)).getD [] },
     cr := { hmac := fun a k m => (st.orc.hmac.get? (hmacKey a k m)).getD [],
             pkVerify := fun p k a m s => (st.orc.pkv.get? (pkvKey p k.id a m s)).getD false,
-            pkSign := fun _ _ _ _ => none },
+            pkSign := fun _ _ _ _ => some sigPlaceholder },
     prov := st.prov, now := st.now }
 
 def loadStrictFn (st : St) : Bytes → Option Json := fun b => (st.orc.loadStrict.get? (hex b)).getD none
@@ -134,6 +144,10 @@ def runProg (st : St) (prog : String) (headers claims : Json) (jalg : Alg) (cfg 
 /-- a scripted program as the model's callback type -/
 def progCb (st : St) (prog : String) : CheckerCb := fun headers claims jalg cfg =>
   let r := runProg st prog headers claims jalg cfg
+  (r.ret, r.headers, r.claims, r.cfg)
+
+def progBuilderCb (st : St) (prog : String) : BuilderCb := fun headers claims cfg =>
+  let r := runProg st prog headers claims .none cfg
   (r.ret, r.headers, r.claims, r.cfg)
 
 def b01 (b : Bool) : Nat := if b then 1 else 0
@@ -304,7 +318,7 @@ def step (st : St) (line : String) : St × String :=
               -- the callback closes over the driver state *at call time*: stored as text, built in `verify`
               ({ st with cks := st.cks.insert ci { ck := slot.ck, prog := prog } }, "rc=0")
           | ["verify", h] =>
-            match unhex h with
+            match (if h = "@last" then some st.lastTok else unhex h) with
             | none => (st, "badop")
             | some tok =>
               let slot' : CkSlot := if slot.prog = "" then slot
@@ -325,6 +339,101 @@ def step (st : St) (line : String) : St × String :=
                  s!"rc={rc} err={b01 ck.error} msg={b01 ck.msg.isSome} cb=[{obs}]")
           | ["err"] => (st, s!"err={b01 slot.ck.error} msg={b01 slot.ck.msg.isSome}")
           | ["errclr"] => (put slot.ck.errorClear, "ok")
+          | _ => (st, "badop")
+  | "bl" :: c :: rest =>
+    match c.toNat? with
+    | none => (st, "badslot")
+    | some bi =>
+      match rest with
+      | ["new"] => ({ st with bls := st.bls.insert bi { bl := Builder.new } }, "ok")
+      | _ =>
+        match st.bls.get? bi with
+        | none => (st, "nobl")
+        | some slot =>
+          let put (b : Builder) : St := { st with bls := st.bls.insert bi { slot with bl := b } }
+          let ls := loadStrictFn st
+          let needStrict (r : SetReq) : Option String :=
+            match r.type, r.jsonVal with
+            | .json, some t => if st.orc.loadStrict.contains (hex t) then none else some s!"need loadstrict {hex t}"
+            | _, _ => none
+          match rest with
+          | ["free"] => ({ st with bls := st.bls.erase bi }, "ok")
+          | "setkey" :: a :: more =>
+            let alg := (a.toNat?.bind Alg.ofOrd).getD .inval
+            let key := match more with | [s, i] => st.keys.get? s!"{s}:{i}" | _ => none
+            let (b, rc) := slot.bl.setkey alg key
+            (put b, s!"rc={rc}")
+          | ["iat", e] => let (b, rc) := slot.bl.enableIat (e.toInt?.getD 0); (put b, s!"rc={rc}")
+          | ["offset", cl, secs] =>
+            match secs.toInt? with
+            | some s => let (b, rc) := slot.bl.timeOffset (claimOf cl) s; (put b, s!"rc={rc}")
+            | none => (st, "badop")
+          | ["setcb", prog] =>
+            if prog = "-" then ({ st with bls := st.bls.insert bi { bl := (slot.bl.setcb none).1, prog := "" } }, "rc=0")
+            else ({ st with bls := st.bls.insert bi { bl := slot.bl, prog := prog } }, "rc=0")
+          | [op, ty, nm, v, rp] =>
+            if op = "hset" || op = "cset" then
+              match mkSetReq ty nm v rp with
+              | some r =>
+                match needStrict r with
+                | some n => (st, n)
+                | none =>
+                  let (b, e) := if op = "hset" then slot.bl.headerSet ls r else slot.bl.claimSet ls r
+                  (put b, s!"rc={e.code} verr={e.code}")
+              | none => (st, "badop")
+            else (st, "badop")
+          | [op, ty, nm] =>
+            if op = "hget" || op = "cget" then
+              match unhex nm with
+              | some n => (st, showGet (vtypeOf ty) (getter (if op = "hget" then slot.bl.cfg.headers else slot.bl.cfg.payload) (vtypeOf ty) n))
+              | none => (st, "badop")
+            else (st, "badop")
+          | [op, nm] =>
+            if op = "hdel" || op = "cdel" then
+              match unhex nm with
+              | some n => (put (if op = "hdel" then (slot.bl.headerDel n).1 else (slot.bl.claimDel n).1), "rc=0")
+              | none => (st, "badop")
+            else (st, "badop")
+          | ["gen"] =>
+            let slot' : BlSlot := if slot.prog = "" then slot
+              else { slot with bl := (slot.bl.setcb (some (progBuilderCb st slot.prog))).1 }
+            let env := mkEnv st
+            let r := genAfterCb slot'.bl.cfg st.now
+            -- callback-side needs (JSON text handed to set calls)
+            let cbNeeds : List String := if slot.prog = "" then [] else
+              let alg0 := if slot.bl.cfg.alg = .none then (match slot.bl.cfg.key with | some k => k.alg | none => .none) else slot.bl.cfg.alg
+              (runProg st slot.prog slot.bl.cfg.headers (baseClaims slot.bl.cfg st.now) .none { key := slot.bl.cfg.key, alg := alg0 }).needs
+            if !cbNeeds.isEmpty then (st, " | ".intercalate cbNeeds)
+            else
+              let cfg := r.2.2.2
+              let alg := if cfg.alg = .none then (match cfg.key with | some k => k.alg | none => .none) else cfg.alg
+              -- which dumps will be asked for?
+              let dumpNeeds : List String :=
+                if r.1 ≠ 0 then [] else
+                match setkeyCheck .builder alg cfg.key, headSetup r.2.1 alg with
+                | none, .ok h => ([h, r.2.2.1].filter fun j => !st.orc.dump.contains (enc j)).map fun j => s!"need dump {enc j}"
+                | _, _ => []
+              if !dumpNeeds.isEmpty then (st, " | ".intercalate dumpNeeds)
+              else
+                let (_, _, tr) := generateCore env slot'.bl.cfg
+                let msg : Bytes := match headSetup r.2.1 alg with
+                  | .ok h => uriEncode (env.jc.dump h) ++ [46] ++ uriEncode (env.jc.dump r.2.2.1)
+                  | .error _ => []
+                let macNeeds := tr.filterMap fun c =>
+                  match c with
+                  | .hmac a k => if st.orc.hmac.contains (hmacKey a k.oct msg) then none else some s!"need hmac {a.ord} {hex k.oct} {hex msg}"
+                  | _ => none
+                if !macNeeds.isEmpty then (st, " | ".intercalate macNeeds)
+                else
+                  let (b, tok) := generate env slot'.bl
+                  let obs := if slot.prog = "" then "" else
+                    let alg0 := if slot.bl.cfg.alg = .none then (match slot.bl.cfg.key with | some k => k.alg | none => .none) else slot.bl.cfg.alg
+                    (runProg st slot.prog slot.bl.cfg.headers (baseClaims slot.bl.cfg st.now) .none { key := slot.bl.cfg.key, alg := alg0 }).obs
+                  let sigby := tr.filterMap fun c => match c with | .pkSign a k => some s!" sigby={k.id}:{a.ord}" | _ => none
+                  ({ st with lastTok := tok, bls := st.bls.insert bi { slot with bl := { b with cfg := slot.bl.cfg } } },
+                   s!"tok={hexOpt tok} err={b01 b.error} msg={b01 b.msg.isSome} cb=[{obs}]" ++ String.join sigby)
+          | ["err"] => (st, s!"err={b01 slot.bl.error} msg={b01 slot.bl.msg.isSome}")
+          | ["errclr"] => (put slot.bl.errorClear, "ok")
           | _ => (st, "badop")
   | _ => (st, "badop")
 
